@@ -6,6 +6,10 @@ spec -> code
     every edge (s, merge(t,o), s') is executed as path(s);merge on libraries written and re-read by armi's own
     ISOTXS/GAMISO/PMATRX writers/readers; after the call the libraries are projected (whose data every nuclide holds,
     group structures, dose factors, velocity, file metadata, chi flags) and compared with the state TLC printed.
+  * LibraryMergeDir: the file-based entry point mergeXSLibrariesInWorkingDirectory as another realisation of a merge
+    history: generated ISOxx / xx.gamiso / xx.pmatrx files in a fresh directory per behaviour, the user's library in every
+    pre-filled state TLC reaches (empty, files merged by hand, an earlier directory merge), with and without gamma libraries;
+    the function's skip rule and its dummy-nuclide rules are part of the action.
   * Macros: TLC enumerates micro tables x suffixes x compositions, checks linearity / additivity / zero / defining sums
     in the specification over exact rationals and prints every case with the expected arrays; the real functions are
     called once per case.
@@ -15,6 +19,7 @@ code -> spec
 """
 import concurrent.futures
 import json
+import shutil
 import multiprocessing
 import os
 import random
@@ -51,10 +56,12 @@ def launch(thorough):
     jobs = {
         "merge_emit": ("LibraryMerge_mc", "LibraryMerge_emit%s.cfg" % t, dict(workers=1, coverage=False)),
         "macro_emit": ("Macros_mc", "Macros_emit%s.cfg" % t, dict(workers=1, coverage=False)),
+        "dir_emit": ("LibraryMergeDir_mc", "LibraryMergeDir_emit%s.cfg" % t, dict(workers=1, coverage=False)),
     }
     if not _SELFTEST:
         jobs["merge_mc"] = ("LibraryMerge_mc", "LibraryMerge_mc%s.cfg" % t, dict(workers=4, want_prints=False))
         jobs["macro_mc"] = ("Macros_mc", "Macros_mc%s.cfg" % t, dict(workers=8, want_prints=False))
+        jobs["dir_mc"] = ("LibraryMergeDir_mc", "LibraryMergeDir_mc%s.cfg" % t, dict(workers=2, want_prints=False))
         if thorough:
             jobs["merge_four"] = ("LibraryMerge_mc", "LibraryMerge_four_thorough.cfg", dict(workers=4, want_prints=False))
             jobs["merge_all"] = ("LibraryMerge_mc", "LibraryMerge_all.cfg", dict(workers=6, want_prints=False))
@@ -141,13 +148,73 @@ def shape_obs(libs, err, act, expected=False):
     longer that of its source, which every later merge of that library inherits -- keys ...:other:<group>.
     The outcome is compared as accepted / refused (the specification's refusal kind names the violation keys only)."""
     out = {"err": "refused" if err else ""}
-    if act is not None and "t" in act:
+    if act is not None and act.get("n") in ("MergeDir", "MergeDirRefused"):
+        # the user's library is index 0.  A refused directory merge is a loop of merges that stopped half-way: only the
+        # refusal and the untouched in-memory libraries are compared
+        if not err:
+            out["target"] = libs[0]
+        out["rest"] = libs[1:]
+    elif act is not None and "t" in act:
         out["target"] = libs[act["t"]]
         out["rest"] = [x for i, x in enumerate(libs) if i not in (act["t"], act["o"])]
         out["other"] = libs[act["o"]]
     else:
         out["rest"] = libs
     return out
+
+
+class DirAdapter(MergeAdapter):
+    """LibraryMergeDir: a fresh directory per world holding the scenario's files under the names the function looks for
+    (ISOxx, xx.gamiso, xx.pmatrx); library 0 empty, libraries of directory sources read from THOSE paths (so that fileNames
+    are what the function's skip rule compares), the outsider from its own file."""
+
+    def __init__(self):
+        MergeAdapter.__init__(self, nlab=8)
+        self.n = 0
+        self.base = common.workdir("c10-dir")      # the path must not contain "ISO": the function searches the id in the path
+
+    def build(self, root):
+        from armi import nuclearDataIO as ndio
+
+        S = sources()
+        self.n += 1
+        d = os.path.join(self.base, "w%d_%d" % (os.getpid(), self.n))
+        os.makedirs(d)
+        paths, pathmap, dummies = {}, {}, set()
+        for e in root["dir"]:
+            xsid = G.LABELS[root["src"][e["n"] - 1]["labs"][0]][1]
+            for k, name in (("n", ndio.getExpectedISOTXSFileName(suffix="", xsID=xsid)), ("g", ndio.getExpectedGAMISOFileName(suffix="", xsID=xsid)),
+                            ("p", ndio.getExpectedPMATRXFileName(suffix="", xsID=xsid))):
+                sid = e[k]
+                paths[sid] = os.path.join(d, name)
+                shutil.copy(S.path(root["src"][sid - 1], sid), paths[sid])
+                pathmap[paths[sid]] = sid
+            if e["dl"]:
+                dummies.add(e["dl"])
+        libs = [self.xsLibraries.IsotxsLibrary()]
+        for sid, desc in enumerate(root["src"], start=1):
+            libs.append(G._iomod(desc["kind"]).readBinary(paths[sid]) if sid in paths else S.load(desc, sid))
+        return {"libs": libs, "nsrc": len(root["src"]), "err": "", "last": None, "dir": d, "pathmap": pathmap, "dummies": dummies}
+
+    def apply(self, w, a):
+        if a["n"] in MERGE_ACTIONS:
+            return MergeAdapter.apply(self, w, a)
+        if a["n"] not in ("MergeDir", "MergeDirRefused"):
+            raise AssertionError("unknown action %r" % a)
+        w["err"], w["cls"], w["last"] = "", "", a
+        try:
+            self.xsLibraries.mergeXSLibrariesInWorkingDirectory(w["libs"][0], "", bool(a["gam"]), alternateDirectory=w["dir"])
+        except self.refusals as ex:
+            w["cls"] = type(ex).__name__
+            w["err"] = "refused"
+        return w["err"]
+
+    def project_libs(self, w):
+        S = sources()
+        return [G.project_library(x, S, w["nsrc"], self.labels, w["pathmap"], w["dummies"]) for x in w["libs"]]
+
+    def dispose(self, w):
+        shutil.rmtree(w["dir"], ignore_errors=True)
 
 
 FIELD_GROUP = {"ngs": "properties", "ggs": "properties", "nd": "properties", "gd": "properties", "vel": "velocity",
@@ -297,6 +364,39 @@ def run_merge(rep, thorough, seed, results):
             e = pool[len(pool) // 2]
             rep.sample({"kind": kind, "sources": e["from"]["src"], "path": [s["act"] for s in g.path[e["_fk"]]], "act": e["act"],
                         "expected_err": e["err"], "expected_target": e["obs"].get("target")})
+
+
+def run_merge_dir(rep, thorough, seed, results):
+    """mergeXSLibrariesInWorkingDirectory as another realisation of a merge history (LibraryMergeDir)."""
+    if "dir_mc" in results and not _SELFTEST:
+        res = results["dir_mc"]
+        _tlc_verdict(rep, "exhaustive:" + res.cfgname, res)
+        never = [a for a in ("MergeDir", "UserMerge") if res.coverage.get(a, (0, 0))[1] == 0]
+        if never:
+            raise tlc.MachineryError("vacuous: actions never taken in %s: %s" % (res.cfgname, never))
+    eres = results["dir_emit"]
+    _tlc_verdict(rep, "edges:" + eres.cfgname, eres)
+    g = rp.Graph(edges_of(eres))
+    n, nt, divs, masked = replay_all(g, DirAdapter())
+    ndir = sum(1 for e in g.edges if e["act"]["n"].startswith("MergeDir"))
+    if n == 0 or ndir == 0 or not any(e["act"]["n"] == "MergeDirRefused" for e in g.edges):
+        raise tlc.MachineryError("vacuous: directory merge edges replayed=%d, directory calls=%d" % (n, ndir))
+    rep.add_replay("directory-merge-edges", n, nt,
+                   "every edge of LibraryMergeDir's state graph (the user's own merges of files read by hand and calls of "
+                   "mergeXSLibrariesInWorkingDirectory with and without gamma libraries, in any order, <= 3 calls) is executed on a "
+                   "fresh directory of generated ISOxx / xx.gamiso / xx.pmatrx files; non-trivial = the state changes")
+    rep.note("directory merges: %d of the %d edges call mergeXSLibrariesInWorkingDirectory" % (ndir, len(g.edges)))
+    if masked:
+        rep.note("%d directory-merge edges not replayed because the path leading to them already diverged" % masked)
+    for key, d in divs.items():
+        rep.violation(key, "real libraries diverge from LibraryMergeDir after %s (specified outcome: %s; %d edges): %s" % (
+            json.dumps(d["action"]), d["kind"] + " conflict, refused" if d["kind"] else "merged", d["count"], d["first_difference"]),
+            dict(d, direction="replay", part="merge-dir"))
+    ok = [x for x in g.edges if x["act"]["n"] == "MergeDir" and x["_fk"] != x["_tk"] and len(g.path[x["_fk"]]) == 1]
+    if ok:
+        e = ok[len(ok) // 2]
+        rep.sample({"kind": "directory-merge", "sources": e["from"]["src"], "dir": e["from"]["dir"], "path": [s["act"] for s in g.path[e["_fk"]]],
+                    "act": e["act"], "expected_target": e["obs"].get("target")})
 
 
 # ------------------------------------------------------------------------------------------------------------
@@ -533,11 +633,12 @@ def run_macros(rep, thorough, seed, results):
 
 def run(rep, tier, seed):
     thorough = tier == "thorough"
-    for m in ("LibraryMerge_mc", "LibraryMerge_trace", "Macros_mc"):
+    for m in ("LibraryMerge_mc", "LibraryMergeDir_mc", "LibraryMerge_trace", "Macros_mc"):
         tlc.sany(m, MODDIR)
     rep.exhaustive = True
     results = launch(thorough)          # all threads have ended before any process is forked
     run_merge(rep, thorough, seed, results)
+    run_merge_dir(rep, thorough, seed, results)
     run_merge_traces(rep, thorough, seed)
     run_macros(rep, thorough, seed, results)
     rep.extra["tolerances"] = {"macroscopic arrays": "rtol %g (a handful of double operations on small rationals)" % MACRO_RTOL,
@@ -553,6 +654,10 @@ def run(rep, tier, seed):
         "leaves a library that is no longer what its source gave; keys ...:other:...)",
         "a refusal is any of ImmutablePropertyError (group structures / dose factors), OSError (file metadata), AttributeError or "
         "numpy's ValueError (same kind of data for one label); which one is raised when several conflicts coexist is not compared",
+        "directory merge: ids in the order of the sorted ISOxx names; an id whose ISOxx path is already in the library's fileNames "
+        "is skipped with its gamma files; a refused directory merge is compared on the refusal only (a loop of merges that "
+        "stopped); of a dummy nuclide's synthesised entries only their existence is observed",
+        "multipliers efiss / ecapt: exactly 0.0 is a value (ISOTXS files state them for every nuclide; 'absent' does not occur)",
         "zero for an empty composition = zero vector (not None, not an exception); a nuclide with non-zero density that the library "
         "lacks is refused with ValueError as documented; data a nuclide does not carry contribute nothing",
         "energy-deposition constants are compared in the library's unit (observed J/cm divided by units.JOULES_PER_eV)",
@@ -567,6 +672,12 @@ def replay(payload):
         steps = [{"act": a, "obs": {}} for a in payload["behaviour"]]
         steps[-1]["obs"] = payload["expected"]
         d = rp.run_behaviour(ad, payload["root"], steps, check_from=len(steps) - 1)
+        print(json.dumps(d, indent=1, default=str) if d else "no divergence: behaviour conforms")
+        return 1 if d else 0
+    if part == "merge-dir" and direction == "replay":
+        steps = [{"act": a, "obs": {}} for a in payload["behaviour"]]
+        steps[-1]["obs"] = payload["expected"]
+        d = rp.run_behaviour(DirAdapter(), payload["root"], steps, check_from=len(steps) - 1)
         print(json.dumps(d, indent=1, default=str) if d else "no divergence: behaviour conforms")
         return 1 if d else 0
     if part == "merge" and direction == "trace":
@@ -767,6 +878,41 @@ def selftest():
                         return tr
         return tr
 
+    # ---- second seeding round ----
+    def removal_below_diagonal_only(self):
+        from scipy import sparse
+        self.macros.removal = self.macros.absorption - self.macros.n2n
+        self.macros.removal += sparse.tril(self.macros.totalScatter, k=-1).sum(axis=0).getA1()   # up-scatter out of a group forgotten
+
+    def xs_multiplier_zero_is_absent(libNuclide, multiplier, libType):
+        if multiplier:
+            try:
+                v = getattr(getattr(libNuclide, libType), multiplier)
+            except Exception:
+                v = libNuclide.isotxsMetadata[multiplier] or 1.0      # an energy per capture of exactly 0 becomes 1
+        else:
+            v = 1.0
+        return np.asarray(v)
+
+    def resourced(fn, old, new):
+        """The function recompiled from its own source with one fragment replaced (for mutants in the middle of a long function)."""
+        import inspect
+        import textwrap
+
+        src = textwrap.dedent(inspect.getsource(fn))
+        if src.count(old) != 1:
+            raise tlc.MachineryError("selftest: fragment %r not found exactly once in %s" % (old, fn.__name__))
+        ns = {}
+        exec(compile(src.replace(old, new), "<mutant of %s>" % fn.__name__, "exec"), fn.__globals__, ns)
+        return ns[fn.__name__]
+
+    dirmerge = xsLibraries.mergeXSLibrariesInWorkingDirectory
+    dir_skips_known_ids = resourced(dirmerge, "if xsLibFilePath in lib.isotxsMetadata.fileNames:",
+                                    "if xsLibFilePath in lib.isotxsMetadata.fileNames or xsID in lib.xsIDs:")
+    dir_gamma_without_dummies = resourced(dirmerge, "gammaLibrary, dummyNuclidesInNeutron", "gammaLibrary, None")
+    dir_reference_never_set = resourced(dirmerge, "if not referenceDummyNuclides:", "if False:")
+    dir_merges_unsorted_last_first = resourced(dirmerge, "for xsLibFilePath in sorted(xsLibFiles):", "for xsLibFilePath in sorted(xsLibFiles, reverse=True):")
+
     P = patched
     M = xsCollections.MacroscopicCrossSectionCreator
     mutants = [
@@ -791,6 +937,12 @@ def selftest():
         ("removal keeps the in-group scatter", lambda: P(M, "_computeRemovalXS", removal_keeps_diagonal)),
         ("total scatter counts n2n once", lambda: P(xsCollections.XSCollection, "getTotalScatterMatrix", total_scatter_n2n_once)),
         ("macro scatter matrices ignore the xs-id suffix", lambda: P(M, "_convertScatterMatrices", scatter_ignores_suffix)),
+        ("directory merge also skips an id the library already has ANY data for", lambda: P(xsLibraries, "mergeXSLibrariesInWorkingDirectory", dir_skips_known_ids)),
+        ("directory merge gives GAMISO libraries no dummy nuclides", lambda: P(xsLibraries, "mergeXSLibrariesInWorkingDirectory", dir_gamma_without_dummies)),
+        ("directory merge never records the reference dummy nuclides", lambda: P(xsLibraries, "mergeXSLibrariesInWorkingDirectory", dir_reference_never_set)),
+        ("directory merge reads the ISOxx files in reverse order", lambda: P(xsLibraries, "mergeXSLibrariesInWorkingDirectory", dir_merges_unsorted_last_first)),
+        ("removal counts out-scatter below the diagonal only (needs up-scatter)", lambda: P(M, "_computeRemovalXS", removal_below_diagonal_only)),
+        ("a multiplier of exactly 0 (ecapt / efiss) is treated as absent = 1", lambda: P(xsCollections, "_getXsMultiplier", xs_multiplier_zero_is_absent)),
         ("multiplier (nu) taken from the first group", lambda: P(xsCollections, "_getXsMultiplier", xs_multiplier_first_group)),
     ]
     only = os.environ.get("VERIF_MUTANTS")          # substring filter, for working on one mutant
